@@ -453,7 +453,7 @@ func c02Stress(r *Run, round int) {
 		})
 		defer internal.VerifSetHook(nil)
 	}
-	var opsDone atomic.Int64
+	var opsDone, concurrentWaits atomic.Int64
 	for ph := 0; ph < phases; ph++ {
 		var wg sync.WaitGroup
 		for w := 0; w < nw; w++ {
@@ -481,6 +481,27 @@ func c02Stress(r *Run, round int) {
 					opsDone.Add(1)
 				}
 			}(w)
+		}
+		// in two of three rounds one more goroutine calls Wait again and again while the writers run: its markers
+		// travel in the same batches as their events (whatever shares a batch with a marker must still be applied)
+		waiterStop := make(chan struct{})
+		waiterDone := make(chan struct{})
+		if round%3 != 0 {
+			go func() {
+				defer close(waiterDone)
+				for {
+					select {
+					case <-waiterStop:
+						return
+					default:
+					}
+					c.Wait()
+					concurrentWaits.Add(1)
+					runtime.Gosched()
+				}
+			}()
+		} else {
+			close(waiterDone)
 		}
 		// Wait for the writers, but not blindly: if they stop making progress because the maintenance
 		// goroutine is spinning inside the policy while holding its lock (two dumps apart), that is a
@@ -516,10 +537,12 @@ func c02Stress(r *Run, round int) {
 			}
 			break
 		}
+		close(waiterStop)
 		if stuck {
 			r.Eval(1)
 			return // the cache is dead; its goroutines are left behind
 		}
+		<-waiterDone
 		c.Wait()
 		if ph == 1 {
 			// jump across the short deadlines and run the tick body
@@ -539,6 +562,7 @@ func c02Stress(r *Run, round int) {
 	r.Eval(1)
 	r.Count("stress_ops", opsDone.Load())
 	r.Count("stress_h1_delays", hookHits.Load())
+	r.Count("stress_waits_concurrent_with_writers", concurrentWaits.Load())
 	if len(nl.snapshot()) > 0 {
 		r.Distinct(fmt.Sprintf("stress/M%d/w%d/k%d/d%d", M, nw, nkeys, delay))
 	}
